@@ -78,7 +78,19 @@ pub fn gen_admin(rng: &mut Rng, thorough: bool) -> Vec<String> {
             // (half of the time aimed at the pair that works when c2_1 was made admin of c1_0)
             let aimed = rng.chance(1, 2);
             let c = if aimed { "c1_0".to_string() } else { c.clone() };
-            let inner = match rng.below(5) {
+            let inner = match rng.below(7) {
+                // a migration sent as a sub-message whose migrate entry point itself dispatches a sub-message with a reply that
+                // sets data: the data handed to the OUTER reply is the execute-response encoding of the inner reply's data
+                5 | 6 => {
+                    ctx.sub_id += 1;
+                    format!(
+                        "(mig {} {} ((data 07) (sub {} always ((data {})) (send u2 1:d1))))",
+                        c,
+                        rng.range(1, ncodes),
+                        ctx.sub_id,
+                        rng.pick(&["0a0b", "-", "61*128"])
+                    )
+                }
                 0 => format!("(upd {} {})", c, rng.pick(&["u1", "u2", "c2_1"])),
                 1 => format!("(mig {} {} ((attr m 1)))", c, rng.range(1, ncodes)),
                 // a migration that fails after the new code id was recorded: in `migrate` itself, or in a message it sends
